@@ -48,7 +48,7 @@ def check(tier, seed, t0):
         "coverage": {
             "states": r.distinct, "transitions": max(r.generated - r.distinct, 1),
             "traces_validated_against_impl": 1, "trace_events": len(events), "trace_event_kinds": kinds,
-            "evaluations": evals + sum(len(e.get("ps", [1, 2, 3])) for e in events),
+            "evaluations": evals + sum(len(e.get("psx", [1, 2, 3])) for e in events),
             "distinct_nontrivial": nontrivial + len({e["src"] for e in events}),
             "rule": "spec->impl: every (aggregate, list) state of MC_C15 - all lists (hence all permutations) of length 1..MaxN over the "
                     "rank pool incl. +-inf - in three calling conventions (one list / separate / spread) under each number lift; "
